@@ -311,6 +311,71 @@ Theorem C15_tractogram_extend_own : forall tu st, reachable st ->
 Proof. exact textend_own. Qed.
 Print Assumptions C15_tractogram_extend_own.
 
+(* Tractogram.__getitem__(idx) for a slice / list / mask: per ArraySequence component c, c[idx], then the
+   view constructor around it, the intermediate dropped (tget_component).  The new component is object
+   length (seqs st) + 1: exactly the selected elements, on the component's buffer (views of every
+   component), nothing that exists changes. *)
+Theorem C15_tractogram_getitem : forall st c ix ps, reachable st -> is_live st c = true ->
+  positions (length (C st c)) ix = Ok ps ->
+  let st' := tget_component st c ix in
+  let w := S (length (seqs st)) in
+  reachable st' /\ C st' w = spec_pick (C st c) ps /\
+  sbuf (getseq st' w) = sbuf (getseq st c) /\ is_live st' w = true /\
+  (forall k, k < length (seqs st) -> getseq st' k = getseq st k /\ C st' k = C st k).
+Proof. exact tget_component_spec. Qed.
+Print Assumptions C15_tractogram_getitem.
+
+(* Tractogram.apply_affine(affine, lazy=False) on a tractogram whose streamlines are "sliced"
+   (_lengths.sum() != _data.shape[0]): `for i: streamlines[i] = apply_affine(affine, streamlines[i])`,
+   i.e. the in-place element-wise update OOp c f true (f = the affine on a row).  What the code does:
+   it WRITES THROUGH to every object that shares the cells (the tractogram it was sliced from
+   included), once per occurrence of the cell in the slice — documented view semantics ("performed
+   in-place"); the property's isolation clause is about growth, not about this.  (The other branch —
+   streamlines not "sliced" — transforms the whole buffer in place when np.dot(out=) accepts it and
+   otherwise REPLACES _data by a new array, silently detaching every view: not modelled, see the
+   report.) *)
+Theorem C15_tractogram_apply_affine_sliced : forall st c f dt, reachable st -> is_live st c = true ->
+  offs (getseq st c) <> [] ->
+  let st' := fst (step st (OOp c f true dt)) in
+  snd (step st (OOp c f true dt)) = ROk /\ seqs st' = seqs st /\
+  forall j q, j < length (seqs st) -> q < length (offs (getseq st j)) ->
+    V st' j q = if sbuf (getseq st j) =? sbuf (getseq st c)
+                then iter (occ (cell st j q) (pairs (getseq st c))) (map (apply_fn f)) (V st j q)
+                else V st j q.
+Proof. exact inplace_cells. Qed.
+Print Assumptions C15_tractogram_apply_affine_sliced.
+
+(* ---- the four further operations: refused append, shrink_data(), seq[idx, cols], concatenate(axis=1) *)
+Theorem C15_append_refused_nothing : forall st i, fst (step st (OAppendBad i)) = st /\
+  exists e, snd (step st (OAppendBad i)) = RErr e.
+Proof. exact append_bad_nothing. Qed.
+Print Assumptions C15_append_refused_nothing.
+
+Theorem C15_shrink_op : forall st i, reachable st -> is_live st i = true -> scache (getseq st i) = None ->
+  let st' := fst (step st (OShrink i)) in
+  snd (step st (OShrink i)) = ROk /\ seqs st' = seqs st /\
+  (forall x, x < length (seqs st) -> C st' x = C st x) /\
+  (forall x q y q', R st' x q y q' = R st x q y q').
+Proof. exact shrink_op. Qed.
+Print Assumptions C15_shrink_op.
+
+Theorem C15_getitem_cols : forall st i ix, step st (OGetCols i ix) = step st (OGetIdx i ix).
+Proof. exact get_cols_is_getitem. Qed.
+Print Assumptions C15_getitem_cols.
+
+Theorem C15_concatenate_axis1 : forall st j0 js, reachable st -> forallb (is_live st) (j0 :: js) = true ->
+  let rs := map (fun j => concat (C st j)) (j0 :: js) in
+  let n := sum (lens (getseq st j0)) in
+  n <> 0 ->
+  let st' := fst (step st (OConcat1 (j0 :: js))) in
+  if forallb (fun r => length r =? n) rs then
+    snd (step st (OConcat1 (j0 :: js))) = ROk /\
+    C st' (length (seqs st)) = elems_of (zip_rows rs) (cum_from 0 (lens (getseq st j0))) (lens (getseq st j0)) /\
+    (forall k, k < length (seqs st) -> getseq st' k = getseq st k /\ C st' k = C st k)
+  else snd (step st (OConcat1 (j0 :: js))) = RErr EValue /\ st' = st.
+Proof. exact concat1_spec. Qed.
+Print Assumptions C15_concatenate_axis1.
+
 (* ---- an in-place operator on A reaches all or none of the cells A shares with B *)
 Theorem C15_inplace_all_or_none : forall st a f dt b, reachable st -> is_live st a = true ->
   offs (getseq st a) <> [] -> b < length (seqs st) ->
